@@ -24,6 +24,12 @@ MONITOR  = a clause of the property is false on the implementation's own observa
   c17/reverted_elements_gone/index|contract element of a disconnected block / reverted formation still stored
   c17/contract_element_present              a contract confirmed on the best chain has no element
   c17/host_built_txn_rejected               the host's own lifecycle transaction was refused for a bad proof
+  c01/l2_twin                               contract views differ from a twin node that saw only the best chain
+  c01/l2_best_chain                         … differ from the confirmations/resolutions on the best chain (harness-derived diffs)
+  c01/l2_update_never_fails/<cause>         the contracts part of the chain update failed or panicked on a real history
+  c06/ends_successful[/<class>]             a contract whose data the host holds and whose formation was never
+                                            disconnected did not end `successful` (class: no_funds, pool_refused,
+                                            revision_lost_in_reorg = causes the trace shows; bare = unexplained)
 -/
 namespace Hostd.Drive.Wallet
 open Hostd.Proto Hostd.Wallet
@@ -59,7 +65,8 @@ structure Upd where
   d : Diff
   a1 : Option Nat
   a2 : Option Nat
-  formed : List Nat          -- contracts whose formation this block confirms
+  formed : List Nat          -- v2 contracts whose formation this block confirms
+  fcev : List (Nat × String) -- every event of a host contract in the block: form/rev/res (v2), form1/rev1/res1 (v1)
   bucket : Nat
 deriving Repr
 
@@ -67,6 +74,12 @@ def parseFcs (s : String) : List Nat :=
   (splitDash s "/").filterMap fun t =>
     match t.splitOn ":" with
     | [c, "form"] => c.toNat?
+    | _ => none
+
+def parseFcev (s : String) : List (Nat × String) :=
+  (splitDash s "/").filterMap fun t =>
+    match t.splitOn ":" with
+    | [c, k] => c.toNat?.map fun n => (n, k)
     | _ => none
 
 def parseUpd (s : String) : Option Upd :=
@@ -81,7 +94,7 @@ def parseUpd (s : String) : Option Upd :=
       let a2 ← optTag a2
       let bucket ← bucket.toNat?
       if k != "A" && k != "R" then none
-      pure { apply := k == "A", d := ⟨h, blk, cr, sp, ev⟩, a1, a2, formed := parseFcs fcs, bucket }
+      pure { apply := k == "A", d := ⟨h, blk, cr, sp, ev⟩, a1, a2, formed := parseFcs fcs, fcev := parseFcev fcs, bucket }
   | _ => none
 
 def getUpds (l : Line) : Option (List Upd) :=
@@ -156,6 +169,10 @@ structure DState where
   candOwn : Nat := 0
   candAsFound : Nat := 0    -- lines explained by the as-found metrics transcription
   candRepaired : Nat := 0
+  twinCmp : Nat := 0        -- contracts compared with the twin node
+  bestChainCmp : Nat := 0   -- contract views compared with the fold over the best chain
+  dataEnded : Nat := 0      -- data contracts (formation never disconnected) past expiration
+  dataSuccessful : Nat := 0
 
 def initCands : List Cand :=
   [.buck asFound (.ok {}), .buck repaired (.ok {}), .flat asFound (.ok {}), .flat repaired (.ok {})]
@@ -213,6 +230,56 @@ def expectedIdx (stack : List Blk) (everMax : Nat) : List (Nat × Nat) :=
 
 def formedOnStack (stack : List Blk) : List Nat := stack.flatMap (·.u.formed)
 
+/-! ### contract views (C01 on the real chain, C06 end states) -/
+
+/-- `i:status:formH:formBlk:revisionConfirmed:resH:resBlk` as reported by the node -/
+structure CView where
+  i : Nat
+  status : String
+  fh : Nat
+  fblk : Nat
+  rc : Nat
+  rh : Nat
+  rblk : Nat
+deriving Repr, DecidableEq
+
+def parseCView (s : String) : Option CView :=
+  match s.splitOn ":" with
+  | [i, st, fh, fb, rc, rh, rb] => do
+      pure ⟨← i.toNat?, st, ← fh.toNat?, ← fb.toNat?, ← rc.toNat?, ← rh.toNat?, ← rb.toNat?⟩
+  | _ => none
+
+def getCViews (kv : List (String × String)) (k : String) : Option (List CView) :=
+  (getStrList kv k).bind (·.mapM parseCView)
+
+/-- pending and rejected are identified (C01: rejection is one-way and not a function of the chain) -/
+def normStatus (s : String) : String := if s == "pending" || s == "rejected" then "unconfirmed" else s
+
+def showCV (v : CView) : String := s!"{normStatus v.status}/{v.fh}:{v.fblk}/{v.rc}/{v.rh}:{v.rblk}"
+
+def isResolvedStatus (s : String) : Bool := s == "successful" || s == "failed" || s == "renewed"
+
+/-- the block of the best chain (tip first) that carries event `k` of contract `i` -/
+def findEv (stack : List Blk) (i : Nat) (ks : List String) : Option (Nat × Nat) :=
+  (stack.find? fun b => b.u.fcev.any fun e => e.1 == i && ks.contains e.2).map fun b => (b.u.d.h, b.u.d.blk)
+
+/-- C01 read off the harness-derived diffs of the best chain: confirmation and resolution of every contract -/
+def bestChainViolations (stack : List Blk) (vs : List CView) : List String :=
+  vs.filterMap fun v =>
+    if v.status == "missing" then some s!"c{v.i}:missing" else
+    let isV1 := (findEv stack v.i ["form1", "rev1", "res1"]).isSome
+    let f := findEv stack v.i ["form", "form1"]
+    let r := findEv stack v.i ["res", "res1"]
+    let unconf := normStatus v.status == "unconfirmed"
+    let okForm : Bool := match f with
+      | none => unconf && v.fh == 0
+      | some (h, b) => !unconf && (if isV1 then v.fh == 1 else v.fh == h && v.fblk == b)
+    let okRes : Bool := match r with
+      | none => !isResolvedStatus v.status && v.rh == 0
+      | some (h, b) => isResolvedStatus v.status && v.rh == h && (isV1 || v.rblk == b)
+    if okForm && okRes then none
+    else some s!"c{v.i}:host={showCV v},bestchain_formed={showK f},bestchain_resolved={showK r}"
+
 /-! ### the step function -/
 
 def resCause (res : String) : String :=
@@ -231,13 +298,47 @@ def step (d : DState) (l : Line) : DState × List Verdict :=
        applies := d.applies, reverts := d.reverts, reorgLines := d.reorgLines, deepest := d.deepest,
        freshCmp := d.freshCmp, annSet := d.annSet, annCleared := d.annCleared, accOk := d.accOk,
        maxHeight := d.maxHeight, spentAtMat := d.spentAtMat, bucketRegress := d.bucketRegress,
-       candParent := d.candParent, candOwn := d.candOwn, candAsFound := d.candAsFound, candRepaired := d.candRepaired }, [])
+       candParent := d.candParent, candOwn := d.candOwn, candAsFound := d.candAsFound, candRepaired := d.candRepaired,
+       twinCmp := d.twinCmp, bestChainCmp := d.bestChainCmp, dataEnded := d.dataEnded, dataSuccessful := d.dataSuccessful }, [])
   else if d.dead then (d, [])
   else
     match getStr l.obs "res" with
     | none => (d, [.badline "no res"])
     | some res =>
-    if res.startsWith "harnesserr" || res.startsWith "fresh_" then ({ d with dead := true }, [.badline res])
+    if res.startsWith "twin_" then
+      -- the twin processes the best chain only, forwards: a failure is a finding of its own
+      let r := (res.drop 5).toString
+      let name := if lookup l.obs "comp" == some "contracts" then s!"c01/l2_update_never_fails/twin_{resCause r}"
+                  else s!"c16/update_never_fails/twin_{resCause r}"
+      ({ d with dead := true }, [.monitor name res])
+    else if res.startsWith "harnesserr" || res.startsWith "fresh_" then ({ d with dead := true }, [.badline res])
+    else if l.op == "twin" then
+      match getCViews l.obs "cst", getCViews l.obs "t_cst" with
+      | some lv, some tw =>
+        let diffs := lv.filterMap fun v =>
+          match tw.find? (·.i == v.i) with
+          | none => some s!"c{v.i}:twin_missing"
+          | some t =>
+            if normStatus v.status == normStatus t.status && v.fh == t.fh && v.fblk == t.fblk && v.rc == t.rc && v.rh == t.rh && v.rblk == t.rblk then none
+            else some s!"c{v.i}:living={showCV v},twin={showCV t}"
+        let vs : List Verdict := if diffs.isEmpty then [] else [.monitor "c01/l2_twin" (",".intercalate diffs)]
+        ({ d with dead := !vs.isEmpty, twinCmp := d.twinCmp + lv.length }, vs)
+      | _, _ => ({ d with dead := true }, [.badline "twin fields"])
+    else if l.op == "endcheck" then
+      match getStrList l.obs "end" with
+      | none => ({ d with dead := true }, [.badline "endcheck fields"])
+      | some es =>
+        -- i:status:v1:sectors:stable:expired:refused:revisionConfirmed:fundFailures:lastRejection
+        let rows := es.filterMap fun e => match e.splitOn ":" with
+          | [i, st, v1, sec, stable, expd, refused, rc, fund, last] =>
+            some (i, st, v1 == "1", sec.toNat?.getD 0, stable == "1", expd == "1", refused.toNat?.getD 0, rc == "1", fund.toNat?.getD 0, last)
+          | _ => none
+        let due := rows.filter fun (_, _, v1, sec, stable, expd, _, _, _, _) => !v1 && sec > 0 && stable && expd
+        let bad := due.filter fun (_, st, _, _, _, _, _, _, _, _) => st != "successful"
+        let vs : List Verdict := bad.map fun (i, st, _, sec, _, _, refused, rc, fund, last) =>
+          let cls := if fund > 0 then "/no_funds" else if refused > 0 then "/pool_refused" else if !rc then "/revision_lost_in_reorg" else ""
+          .monitor ("c06/ends_successful" ++ cls) s!"c{i}:status={st},sectors={sec},pool_refusals={refused},fund_failures={fund},revision_confirmed={rc},last_rejection={last}"
+        ({ d with dead := !vs.isEmpty, dataEnded := d.dataEnded + due.length, dataSuccessful := d.dataSuccessful + (due.length - bad.length) }, vs)
     else if l.op == "fresh" then
       -- model-independent oracle: the living node against a node that only ever saw the best chain
       let fields := ["utxo", "ev", "bal", "imm", "mbal", "mimm"]
@@ -304,7 +405,9 @@ def step (d : DState) (l : Line) : DState × List Verdict :=
           else if fails false true && okc true true then "reorg_across_stat_buckets"
           else if spendAtMatHere then "spend_at_maturity_height"
           else resCause res
-        let name := if isC17Failure res then s!"c17/update_never_fails/{cause}" else s!"c16/update_never_fails/{cause}"
+        let name := if isC17Failure res then s!"c17/update_never_fails/{cause}"
+          else if lookup l.obs "comp" == some "contracts" then s!"c01/l2_update_never_fails/{cause}"
+          else s!"c16/update_never_fails/{cause}"
         ({ d1 with dead := true }, [.monitor name res])
       else
       -- ---- observations
@@ -382,7 +485,10 @@ def step (d : DState) (l : Line) : DState × List Verdict :=
           (if mkcel == 0 then [] else [.monitor "c17/element_proof_valid/contract" s!"invalid={mkcel}"])
         let m14 : List Verdict := if hostrej == 0 then [] else [.monitor "c17/host_built_txn_rejected" s!"count={hostrej}"]
         let annMons := if d.annDead then [] else m6 ++ m7
-        let mons := m1 ++ m2 ++ m3 ++ m4 ++ m5 ++ annMons ++ m8 ++ m9 ++ m10 ++ m11 ++ m12 ++ m13 ++ m14
+        let cviews := (getCViews l.obs "cst").getD []
+        let bcv := bestChainViolations stack cviews
+        let m15 : List Verdict := if bcv.isEmpty then [] else [.monitor "c01/l2_best_chain" (",".intercalate bcv)]
+        let mons := m15 ++ m1 ++ m2 ++ m3 ++ m4 ++ m5 ++ annMons ++ m8 ++ m9 ++ m10 ++ m11 ++ m12 ++ m13 ++ m14
         -- ---- correspondence: which transcribed variants explain the host
         let explains (c : Cand) : Bool := match candView c with
           | .ok (tx, ev, b, i) => sortU tx == outxS && sortP (ev.map fun e => (e.id, e.blk)) == oevS && b == mbal && i == mimm
@@ -423,6 +529,7 @@ def step (d : DState) (l : Line) : DState × List Verdict :=
           prevAidx := aidx,
           dead := !vs.isEmpty && !onlyAnn,
           annDead := d.annDead || !annMons.isEmpty,
+          bestChainCmp := d1.bestChainCmp + cviews.length,
           annSet := d1.annSet + (if annBlocksApplied.isEmpty then 0 else 1),
           annCleared := d1.annCleared + (if d.prevAidx.isSome && aidx.isNone then 1 else 0),
           accOk := d1.accOk + (acc.length - badAcc.length),
@@ -434,6 +541,6 @@ def step (d : DState) (l : Line) : DState × List Verdict :=
       | _, _, _, _, _, _, _, _, _, _, _, _, _, _, _, _ => ({ d1 with dead := true }, [.badline "observation fields"])
 
 def stats (d : DState) : String :=
-  s!"hists={d.hists} applies={d.applies} reverts={d.reverts} reorg_lines={d.reorgLines} deepest_reorg={d.deepest} max_height={d.maxHeight} fresh_compared={d.freshCmp} ann_set={d.annSet} ann_cleared={d.annCleared} pool_accepts={d.accOk} spend_at_maturity={d.spentAtMat} bucket_regress={d.bucketRegress} expl_ann_parent={d.candParent} expl_ann_own={d.candOwn} expl_metrics_as_found={d.candAsFound} expl_metrics_repaired={d.candRepaired}"
+  s!"hists={d.hists} applies={d.applies} reverts={d.reverts} reorg_lines={d.reorgLines} deepest_reorg={d.deepest} max_height={d.maxHeight} fresh_compared={d.freshCmp} ann_set={d.annSet} ann_cleared={d.annCleared} pool_accepts={d.accOk} spend_at_maturity={d.spentAtMat} bucket_regress={d.bucketRegress} expl_ann_parent={d.candParent} expl_ann_own={d.candOwn} expl_metrics_as_found={d.candAsFound} expl_metrics_repaired={d.candRepaired} twin_contracts={d.twinCmp} best_chain_views={d.bestChainCmp} data_contracts_ended={d.dataEnded} data_contracts_successful={d.dataSuccessful}"
 
 end Hostd.Drive.Wallet
